@@ -1,0 +1,83 @@
+//go:build verif && !no_workceptor
+// +build verif,!no_workceptor
+
+package workceptor
+
+// Instrumentation for the verification harness in /verif (build tag "verif"), add-only.
+//
+//   VERIF_CRASH=name:n       the process kills itself (SIGKILL) the n-th time it reaches the
+//                            crash point called name
+//   VERIF_CRASH_LOG=file     every crash point reached is appended to file (pid, name)
+//   VERIF_STATUS_LOG=file    every status record rewrite is appended to file as one JSON line
+
+import (
+	"encoding/json"
+	"fmt"
+	"os"
+	"strconv"
+	"strings"
+	"sync"
+	"syscall"
+)
+
+var (
+	verifMu     sync.Mutex
+	verifCounts = map[string]int{}
+)
+
+func verifAppend(file string, line string) {
+	f, err := os.OpenFile(file, os.O_CREATE|os.O_WRONLY|os.O_APPEND, 0o600)
+	if err != nil {
+		return
+	}
+	_, _ = f.WriteString(line + "\n")
+	_ = f.Close()
+}
+
+func verifCrashPoint(name string) {
+	verifMu.Lock()
+	verifCounts[name]++
+	n := verifCounts[name]
+	verifMu.Unlock()
+	if lf := os.Getenv("VERIF_CRASH_LOG"); lf != "" {
+		verifAppend(lf, fmt.Sprintf("%d %s %d", os.Getpid(), name, n))
+	}
+	spec := os.Getenv("VERIF_CRASH")
+	if spec == "" {
+		return
+	}
+	i := strings.LastIndex(spec, ":")
+	if i < 0 || spec[:i] != name {
+		return
+	}
+	want, err := strconv.Atoi(spec[i+1:])
+	if err != nil || want != n {
+		return
+	}
+	_ = syscall.Kill(os.Getpid(), syscall.SIGKILL)
+	select {}
+}
+
+type verifStatusSnapshot struct {
+	State      int
+	StdoutSize int64
+	WorkType   string
+	Detail     string
+}
+
+func verifSnapshot(sfd *StatusFileData) verifStatusSnapshot {
+	return verifStatusSnapshot{State: sfd.State, StdoutSize: sfd.StdoutSize, WorkType: sfd.WorkType, Detail: sfd.Detail}
+}
+
+func verifStatusWrite(filename string, fileWasEmpty bool, old verifStatusSnapshot, sfd *StatusFileData) {
+	lf := os.Getenv("VERIF_STATUS_LOG")
+	if lf == "" {
+		return
+	}
+	line, err := json.Marshal(map[string]interface{}{
+		"pid": os.Getpid(), "file": filename, "empty": fileWasEmpty, "old": old, "new": verifSnapshot(sfd),
+	})
+	if err == nil {
+		verifAppend(lf, string(line))
+	}
+}
